@@ -25,7 +25,9 @@ From TV Require Import Model.Datetime Model.Numbers Model.Tree Model.Parse Model
 From TV Require Import Proofs.DefsEquivBase Proofs.GrammarBase.
 From TV Require Import Proofs.WFSem Proofs.WFSemDoc Proofs.WFPrintFlat Proofs.WFTree Proofs.WFPrintTop Proofs.WFBool Proofs.WFBoolSound
                        Proofs.WFReparse Proofs.WFParseTop Proofs.WFReplay.
+From TV Require Spec.Ordered.
 From TV Require Import Spec.EditSpec Model.Edit Proofs.EditRefineBase Proofs.EditRefine.
+From TV Require Import Proofs.EditWF Proofs.PrintBackDespan.
 From TV Require Import Proofs.EditWFTextBase Proofs.EditWFTextOps Proofs.EditWFText.
 Require Import Lia.
 
@@ -133,3 +135,322 @@ Qed.
 
 Lemma data_of_parsed d : tree_dval (abs_doc d) = data_of (EditSpec.abs (doc_root d)).
 Proof. unfold abs_doc. apply data_of_abs_doc. Qed.
+
+(* ==================================================================================== *)
+(** * Bridge 2: the data Display of a tree defines, lines first *)
+
+Lemma node_dval_dn_item : forall it, node_dval (dres_node dval (dn_item it)) = absi it.
+Proof.
+  induction it as [it IH] using item_dotted_ind. destruct it as [|v|t|ts sp]; try reflexivity.
+  destruct v as [x r d|vals tr c d sp|sub pre im dt d sp]; try reflexivity. destruct dt; [|reflexivity].
+  specialize (IH sub pre im d sp eq_refl). cbn [absi]. rewrite absv_inline. cbn [dn_item dres_node node_dval]. f_equal.
+  rewrite !map_map. apply map_ext_in. intros [k i] Hin. rewrite Forall_forall in IH. unfold absi_kv. cbn [fst snd]. f_equal.
+  exact (IH (k, i) Hin).
+Qed.
+
+Definition line_part (n : snode dval) : list (node dval) := match n with SV _ | SD _ => node_res dval n | _ => [] end.
+Definition sec_part (n : snode dval) : list (node dval) := match n with ST _ _ | SA _ => node_res dval n | _ => [] end.
+
+Lemma lres_parts l : lres dval l = flat_map (fun kn => map (fun r => (fst kn, r)) (line_part (snd kn))) l.
+Proof. unfold lres. apply flat_map_ext. intros [k n]. destruct n; reflexivity. Qed.
+Lemma sres_parts l : sres dval l = flat_map (fun kn => map (fun r => (fst kn, r)) (sec_part (snd kn))) l.
+Proof. unfold sres. apply flat_map_ext. intros [k n]. destruct n; reflexivity. Qed.
+
+Lemma tree_dval_flat (f : key * item -> list (node dval)) (g : plain -> bool) items :
+  (forall kv, In kv items -> map node_dval (f kv) = if g (EditSpec.abs_item (snd kv)) then [pd_text (EditSpec.abs_item (snd kv))] else []) ->
+  tree_dval (flat_map (fun kv => map (fun r => (k_key (fst kv), r)) (f kv)) items)
+  = flat_map (fun kv : bytes * plain => match kv with (k, c) => if g c then [(k, pd_text c)] else [] end)
+             (map (fun kv : key * item => match kv with (k, i) => (k_key k, EditSpec.abs_item i) end) items).
+Proof.
+  intros H. induction items as [|[k i] items IH]; [reflexivity|]. cbn [flat_map map]. unfold tree_dval in *. rewrite map_app.
+  rewrite IH by (intros kv Hin; apply H; right; exact Hin). f_equal.
+  specialize (H (k, i) (or_introl eq_refl)). cbn [fst snd] in *. rewrite map_map. cbn [fst snd].
+  rewrite <- (map_map node_dval (fun r => (k_key k, r))). rewrite H. destruct (g (EditSpec.abs_item i)); reflexivity.
+Qed.
+
+Lemma flat_map_map_in {A B C} (f : A -> B) (g : B -> list C) l : flat_map g (map f l) = flat_map (fun x => g (f x)) l.
+Proof. induction l as [|a l IH]; [reflexivity|]. cbn [map flat_map]. rewrite IH. reflexivity. Qed.
+
+Lemma text_data_abs_doc_of :
+  forall r, tree_dval (abs_doc_of r) = text_data (EditSpec.abs r).
+Proof.
+  pose (Pt := fun r => tree_dval (bres dval (sb_tbl r)) = text_data (EditSpec.abs r)).
+  pose (Pi := fun i =>
+     map node_dval (line_part (sn_item i)) = (if is_line (EditSpec.abs_item i) then [pd_text (EditSpec.abs_item i)] else [])
+     /\ map node_dval (sec_part (sn_item i)) = (if is_sec (EditSpec.abs_item i) then [pd_text (EditSpec.abs_item i)] else [])).
+  pose (Pv := fun _ : value => True).
+  assert (Htd : forall r, Pt r -> DTab (tree_dval (bres dval (sb_tbl r))) = pd_text (EditSpec.abs_tbl r)).
+  { intros [items d im dt p sp] H. unfold Pt in H. rewrite H. reflexivity. }
+  assert (Htb : forall items d im dt p sp,
+             Forall (fun kv => Pi (snd kv)) items -> Pt (Tbl items d im dt p sp)).
+  { intros items d im dt p sp IH. unfold Pt. rewrite sb_tbl_eq. cbn [t_items].
+    unfold EditSpec.abs. cbn [EditSpec.abs_tbl text_data]. unfold bres, tree_dval. rewrite map_app.
+    rewrite lres_parts, sres_parts. rewrite !flat_map_map_in. cbn [fst snd]. rewrite Forall_forall in IH. f_equal.
+    - apply (tree_dval_flat (fun kv => line_part (sn_item (snd kv))) is_line). intros kv Hin. exact (proj1 (IH kv Hin)).
+    - apply (tree_dval_flat (fun kv => sec_part (sn_item (snd kv))) is_sec). intros kv Hin. exact (proj2 (IH kv Hin)). }
+  intro r. unfold abs_doc_of. change (Pt r).
+  apply (tbl_ind4 Pv Pi Pt); unfold Pv; try (intros; exact I); try exact Htb.
+  - split; reflexivity.
+  - intros v _. unfold Pi. cbn [sn_item EditSpec.abs_item].
+    assert (E : line_part (sn_dn (dn_item (IValue v))) = [dres_node dval (dn_item (IValue v))]
+                /\ sec_part (sn_dn (dn_item (IValue v))) = []).
+    { pose proof (node_res_sn_dn dval (dn_item (IValue v))) as R. destruct (dn_item (IValue v)); cbn [sn_dn] in *; split; try reflexivity; exact R. }
+    destruct E as [E1 E2]. rewrite E1, E2. cbn [map]. rewrite node_dval_dn_item. cbn [absi].
+    rewrite <- (proj1 pd_val_abs v). destruct v as [s r0 d|vals tr c d sp|items pre im dt d sp]; split; reflexivity.
+  - intros sub IH. unfold Pi. cbn [sn_item EditSpec.abs_item]. pose proof (Htd sub IH) as E.
+    destruct sub as [items d im dt p sp]. cbn [t_dotted]. cbn [EditSpec.abs_tbl] in *. destruct dt.
+    + cbn [line_part sec_part is_line is_sec]. rewrite node_res_SD. cbn [map node_dval].
+      change (map (fun kn : bytes * node dval => (fst kn, node_dval (snd kn))) (bres dval (sb_tbl (Tbl items d im true p sp))))
+        with (tree_dval (bres dval (sb_tbl (Tbl items d im true p sp)))). rewrite E. split; reflexivity.
+    + cbn [line_part sec_part is_line is_sec]. rewrite node_res_ST. cbn [map node_dval].
+      change (map (fun kn : bytes * node dval => (fst kn, node_dval (snd kn))) (bres dval (sb_tbl (Tbl items d im false p sp))))
+        with (tree_dval (bres dval (sb_tbl (Tbl items d im false p sp)))). rewrite E. split; reflexivity.
+  - intros ts sp IH. unfold Pi. cbn [sn_item EditSpec.abs_item line_part sec_part is_line]. split; [reflexivity|].
+    rewrite node_res_SA. destruct ts as [|e ts]; [reflexivity|]. remember (e :: ts) as l eqn:El.
+    assert (E1 : is_sec (PArr true (map EditSpec.abs_tbl l)) = true) by (rewrite El; reflexivity). rewrite E1.
+    destruct (map sb_tbl l) as [|b bs] eqn:Em; [rewrite El in Em; discriminate|]. rewrite <- Em. clear El E1 Em.
+    cbn [map node_dval pd_text]. do 2 f_equal.
+    rewrite !map_map. apply map_ext_in. intros x Hin. rewrite Forall_forall in IH.
+    change (map (fun kn : bytes * node dval => (fst kn, node_dval (snd kn))) (bres dval (sb_tbl x))) with (tree_dval (bres dval (sb_tbl x))).
+    apply Htd. apply IH. exact Hin.
+Qed.
+
+(* ==================================================================================== *)
+(** * When the two orders agree: no key/value line stored behind a section *)
+
+Fixpoint ls_sorted (seen : bool) (l : entries) : bool :=
+  match l with
+  | [] => true
+  | (_, c) :: tl =>
+    if is_line c then negb seen && ls_sorted seen tl
+    else if is_sec c then ls_sorted true tl
+    else false
+  end.
+Fixpoint lines_first (x : plain) : bool :=
+  match x with
+  | PTab false _ l =>
+    ls_sorted false l
+    && (fix go (l : entries) : bool := match l with [] => true | (_, c) :: tl => lines_first c && go tl end) l
+  | PArr true l => (fix go (l : list plain) : bool := match l with [] => true | c :: tl => lines_first c && go tl end) l
+  | PNone => false
+  | _ => true
+  end.
+Lemma lines_first_tab d l :
+  lines_first (PTab false d l) = ls_sorted false l && forallb (fun kv => lines_first (snd kv)) l.
+Proof.
+  cbn [lines_first]. f_equal. induction l as [|[k c] l IH]; [reflexivity|]. cbn [forallb snd]. rewrite IH. reflexivity.
+Qed.
+Lemma lines_first_aot l : lines_first (PArr true l) = forallb lines_first l.
+Proof. cbn [lines_first]. induction l as [|c l IH]; [reflexivity|]. cbn [forallb]. rewrite IH. reflexivity. Qed.
+
+Lemma ls_sorted_parts : forall l,
+  (ls_sorted true l = true -> t_lines l = [] /\ t_secs l = map (fun kv => match kv with (k, c) => (k, pd_text c) end) l)
+  /\ (ls_sorted false l = true -> t_lines l ++ t_secs l = map (fun kv => match kv with (k, c) => (k, pd_text c) end) l).
+Proof.
+  induction l as [|[k c] l [IH1 IH2]]; [split; intros _; [split|]; reflexivity|].
+  unfold t_lines, t_secs in *. cbn [ls_sorted flat_map map]. destruct (is_line c) eqn:L.
+  - assert (S : is_sec c = false) by (destruct c as [|s|[|] ?|[|] [|] ?]; try reflexivity; discriminate). rewrite S.
+    split; [intro H; discriminate|]. cbn [negb andb app]. intro H. f_equal. exact (IH2 H).
+  - destruct (is_sec c) eqn:S; [|split; intro H; discriminate]. cbn [app].
+    assert (G : ls_sorted true l = true ->
+                flat_map (fun kv : bytes * plain => let (k0, c0) := kv in if is_line c0 then [(k0, pd_text c0)] else []) l
+                ++ (k, pd_text c) :: flat_map (fun kv : bytes * plain => let (k0, c0) := kv in if is_sec c0 then [(k0, pd_text c0)] else []) l
+                = (k, pd_text c) :: map (fun kv : bytes * plain => let (k0, c0) := kv in (k0, pd_text c0)) l).
+    { intro H. destruct (IH1 H) as [E1 E2]. rewrite E1, E2. reflexivity. }
+    split; [|exact G]. intro H. destruct (IH1 H) as [E1 E2]. rewrite E1, E2. split; reflexivity.
+Qed.
+
+Lemma lines_first_text : forall x, lines_first x = true -> pd_text x = pd_node x.
+Proof.
+  induction x as [|s|a l IH|il d l IH] using plain_ind2; intro H; try reflexivity; try discriminate.
+  - destruct a; [|reflexivity]. rewrite lines_first_aot in H. cbn [pd_text pd_node]. f_equal. apply map_ext_in. intros c Hin.
+    rewrite Forall_forall in IH. apply (IH c Hin). rewrite forallb_forall in H. exact (H c Hin).
+  - destruct il; [reflexivity|]. rewrite lines_first_tab in H. apply andb_true_iff in H as [H1 H2]. rewrite pd_text_tab. cbn [pd_node]. f_equal.
+    rewrite (proj2 (ls_sorted_parts l) H1). apply map_ext_in. intros [k c] Hin. f_equal.
+    rewrite Forall_forall in IH. apply (IH (k, c) Hin). rewrite forallb_forall in H2. exact (H2 (k, c) Hin).
+Qed.
+
+Lemma lines_first_data : forall r, lines_first (EditSpec.abs r) = true -> text_data (EditSpec.abs r) = data_of (EditSpec.abs r).
+Proof.
+  intros [items d im dt p sp] H. unfold EditSpec.abs in *. cbn [EditSpec.abs_tbl] in *. rewrite lines_first_tab in H.
+  apply andb_true_iff in H as [H1 H2]. cbn [text_data data_of]. rewrite (proj2 (ls_sorted_parts _) H1).
+  apply map_ext_in. intros [k c] Hin. f_equal. apply lines_first_text. rewrite forallb_forall in H2. exact (H2 (k, c) Hin).
+Qed.
+
+(* ==================================================================================== *)
+(** * The bridge: what the backbone's conclusion says about `abs` *)
+
+Theorem bridge : forall d t, abs_doc d = abs_doc_of t -> data_of (EditSpec.abs (doc_root d)) = text_data (EditSpec.abs t).
+Proof. intros d t H. rewrite <- data_of_parsed, H. apply text_data_abs_doc_of. Qed.
+
+(* a well-formed tree prints as a text that parses back to its own data *)
+Theorem WF_print_parse_data : forall t trailing, WF t -> raw_ok SDocTrail trailing ->
+  exists d, parse_document (display_document t trailing) = POk d
+            /\ abs_doc d = abs_doc_of t
+            /\ data_of (EditSpec.abs (doc_root d)) = text_data (EditSpec.abs t).
+Proof.
+  intros t trailing Hw Hr. destruct (WF_print_parse t trailing (conj Hw Hr)) as (d & Hp & Ha).
+  exists d. split; [exact Hp|]. split; [exact Ha|]. exact (bridge d t Ha).
+Qed.
+
+(* ==================================================================================== *)
+(** * The text half of C08, closed *)
+
+Theorem text_roundtrip_any_trailing : forall ops t t' trailing,
+  WF t -> raw_ok SDocTrail trailing -> apply_seq ops t = Some t' -> history_side ops t = true ->
+  exists d, parse_document (display_document t' trailing) = POk d
+            /\ abs_doc d = abs_doc_of t'
+            /\ data_of (EditSpec.abs (doc_root d)) = text_data (EditSpec.abs t')
+            /\ data_of (EditSpec.abs (doc_root d)) = text_data (spec_apply_all ops (EditSpec.abs t)).
+Proof.
+  intros ops t t' trailing Hw Hr H Hs.
+  destruct (WF_print_parse_data t' trailing (history_WF ops t t' Hw H Hs) Hr) as (d & Hp & Ha & Hd).
+  exists d. split; [exact Hp|]. split; [exact Ha|]. split; [exact Hd|].
+  rewrite Hd. rewrite (history_content_all ops t t' H). reflexivity.
+Qed.
+
+Theorem text_roundtrip_closed : forall ops t t',
+  WF t -> apply_seq ops t = Some t' -> history_side ops t = true ->
+  exists d, parse_document (display_document t' REmpty) = POk d
+            /\ data_of (EditSpec.abs (doc_root d)) = text_data (EditSpec.abs t')
+            /\ data_of (EditSpec.abs (doc_root d)) = text_data (spec_apply_all ops (EditSpec.abs t)).
+Proof.
+  intros ops t t' Hw H Hs.
+  destruct (text_roundtrip_any_trailing ops t t' REmpty Hw (raw_ok_empty SDocTrail) H Hs) as (d & Hp & _ & H1 & H2).
+  exists d. auto.
+Qed.
+
+(* ... with the storage order itself when no key/value line of the edited tree is stored behind a
+   sub-table (decidable on the reference side: `lines_first`) *)
+Theorem text_roundtrip_exact_order : forall ops t t',
+  WF t -> apply_seq ops t = Some t' -> history_side ops t = true ->
+  lines_first (spec_apply_all ops (EditSpec.abs t)) = true ->
+  exists d, parse_document (display_document t' REmpty) = POk d
+            /\ data_of (EditSpec.abs (doc_root d)) = data_of (EditSpec.abs t')
+            /\ data_of (EditSpec.abs (doc_root d)) = data_of (spec_apply_all ops (EditSpec.abs t)).
+Proof.
+  intros ops t t' Hw H Hs Hl. destruct (text_roundtrip_closed ops t t' Hw H Hs) as (d & Hp & H1 & H2).
+  rewrite <- (history_content_all ops t t' H) in Hl. pose proof (lines_first_data t' Hl) as E.
+  exists d. split; [exact Hp|]. rewrite <- (history_content_all ops t t' H). rewrite <- E. auto.
+Qed.
+
+(* ==================================================================================== *)
+(** * Documents that were parsed first: the premise on the tree is the order of its sections only *)
+
+Lemma parsed_slots_despan s d0 t : parse_document s = POk d0 -> tbl_despan s (doc_root d0) = Some t -> WF_slots t.
+Proof.
+  intros Hp Er. destruct (parse_WF_total s d0 Hp) as [H _]. destruct (tree_despan_t s) as (_ & _ & Ht). rewrite (Ht _ _ Er). exact H.
+Qed.
+
+Theorem parsed_text_roundtrip : forall s d0 t tr ops t',
+  parse_document s = POk d0 -> tbl_despan s (doc_root d0) = Some t -> raw_despan s (doc_trailing d0) = Some tr ->
+  order_ok t ->
+  apply_seq ops t = Some t' -> history_side ops t = true ->
+  exists d, parse_document (display_document t' tr) = POk d
+            /\ abs_doc d = abs_doc_of t'
+            /\ data_of (EditSpec.abs (doc_root d)) = text_data (EditSpec.abs t')
+            /\ data_of (EditSpec.abs (doc_root d)) = text_data (spec_apply_all ops (EditSpec.abs t)).
+Proof.
+  intros s d0 t tr ops t' Hp Er Et Ho H Hs. destruct (parse_WF s d0 t tr Hp Er Et) as [(Hd & Hw & Hl) Hr].
+  exact (text_roundtrip_any_trailing ops t t' tr (conj Hd (conj Hw (conj Hl Ho))) Hr H Hs).
+Qed.
+
+(* ==================================================================================== *)
+(** * ... and without any premise on the order: the definition rules are run on the result *)
+
+Definition slot_side (o : op) (t : tbl) : bool := wf_side o t && lim_side o t.
+Fixpoint history_slot_side (ops : list op) (t : tbl) : bool :=
+  match ops with
+  | [] => true
+  | o :: tl => match apply o t with
+               | Some t' => slot_side o t && history_slot_side tl t'
+               | None => false
+               end
+  end.
+
+Lemma step_slots : forall t o t', WF_slots t -> apply o t = Some t' -> slot_side o t = true -> WF_slots t'.
+Proof.
+  intros t o t' (Hd & Hw & _) H Hs. unfold slot_side in Hs. apply andb_true_iff in Hs as [Hs Hl].
+  unfold lim_side in Hl. rewrite H in Hl. destruct (step_tbl_wf t o t' Hw H Hs) as [Hw' (Hdd & _)].
+  split; [rewrite <- Hdd; exact Hd|]. split; [exact Hw'|apply tbl_lim_b_sound; exact Hl].
+Qed.
+Lemma history_slots : forall ops t t',
+  WF_slots t -> apply_seq ops t = Some t' -> history_slot_side ops t = true -> WF_slots t'.
+Proof.
+  induction ops as [|o ops IH]; intros t t' Hw H Hs; simpl in *.
+  - injection H as <-. exact Hw.
+  - destruct (apply o t) as [t1|] eqn:E; [|discriminate]. apply andb_true_iff in Hs as [H1 H2].
+    exact (IH t1 t' (step_slots t o t1 Hw E H1) H H2).
+Qed.
+Lemma history_side_slot : forall ops t, history_side ops t = true -> history_slot_side ops t = true.
+Proof.
+  induction ops as [|o ops IH]; intros t H; [reflexivity|]. simpl in *. destruct (apply o t) as [t1|]; [|discriminate].
+  apply andb_true_iff in H as [H1 H2]. unfold step_side in H1. apply andb_true_iff in H1 as [H1 _].
+  apply andb_true_iff. split; [exact H1|exact (IH t1 H2)].
+Qed.
+
+(* the sections of t in the order Display prints them, replayed by the definition rules of
+   Spec/Defs.v, define the data of t *)
+Definition replay_ok (t : tbl) : bool :=
+  match spec_run (replay_stmts t) with Valid T => stree_eqb T (abs_doc_of t) | _ => false end.
+
+Theorem slots_print_parse_data : forall t trailing, WF_slots t -> raw_ok SDocTrail trailing -> replay_ok t = true ->
+  exists d, parse_document (display_document t trailing) = POk d
+            /\ abs_doc d = abs_doc_of t
+            /\ data_of (EditSpec.abs (doc_root d)) = text_data (EditSpec.abs t).
+Proof.
+  intros t trailing Hs Hr Hc. unfold replay_ok in Hc. destruct (spec_run (replay_stmts t)) as [T| |] eqn:Erun; try discriminate.
+  apply stree_eqb_eq in Hc. subst T. destruct (WF_print_parse_replay t trailing _ Hs Hr Erun) as (d & Hp & Ha).
+  exists d. split; [exact Hp|]. split; [exact Ha|]. exact (bridge d t Ha).
+Qed.
+
+Theorem parsed_text_roundtrip_any_order : forall s d0 t tr ops t',
+  parse_document s = POk d0 -> tbl_despan s (doc_root d0) = Some t -> raw_despan s (doc_trailing d0) = Some tr ->
+  apply_seq ops t = Some t' -> history_slot_side ops t = true -> replay_ok t' = true ->
+  exists d, parse_document (display_document t' tr) = POk d
+            /\ abs_doc d = abs_doc_of t'
+            /\ data_of (EditSpec.abs (doc_root d)) = text_data (EditSpec.abs t')
+            /\ data_of (EditSpec.abs (doc_root d)) = text_data (spec_apply_all ops (EditSpec.abs t)).
+Proof.
+  intros s d0 t tr ops t' Hp Er Et H Hs Hc. destruct (parse_WF s d0 t tr Hp Er Et) as [Hsl Hr].
+  destruct (slots_print_parse_data t' tr (history_slots ops t t' Hsl H Hs) Hr Hc) as (d & Hp' & Ha & Hd).
+  exists d. split; [exact Hp'|]. split; [exact Ha|]. split; [exact Hd|].
+  rewrite Hd. rewrite (history_content_all ops t t' H). reflexivity.
+Qed.
+
+(* ... and when the sections are so far out of order that a sub-table is printed in front of a key/value line of
+   its parent (`[a.b]` in front of `[a]`), the order of the keys in the re-parsed tables is the order of first
+   mention in the text, which `abs` cannot know (it does not keep positions).  Then: the same data as UNORDERED
+   tables.  `dcanon` sorts the entries of every table by key (arrays keep their order) *)
+Fixpoint dcanon (v : dval) : dval :=
+  match v with
+  | DArr l => DArr (map dcanon l)
+  | DTab l =>
+    DTab (Spec.Ordered.stable_sort (fun a b : bytes * dval => Spec.Ordered.key_leb (fst a) (fst b))
+            ((fix go (l : list (bytes * dval)) : list (bytes * dval) :=
+                match l with [] => [] | (k, x) :: tl => (k, dcanon x) :: go tl end) l))
+  | _ => v
+  end.
+Definition same_data (a b : list (bytes * dval)) : Prop := dcanon (DTab a) = dcanon (DTab b).
+Definition same_data_b (a b : list (bytes * dval)) : bool := dval_eqb (dcanon (DTab a)) (dcanon (DTab b)).
+Lemma same_data_b_sound a b : same_data_b a b = true -> same_data a b.
+Proof. apply dval_eqb_eq. Qed.
+Lemma same_data_refl a : same_data a a. Proof. reflexivity. Qed.
+
+Definition replay_unordered_ok (t : tbl) : bool :=
+  match spec_run (replay_stmts t) with Valid T => same_data_b (tree_dval T) (text_data (EditSpec.abs t)) | _ => false end.
+
+Theorem parsed_text_roundtrip_unordered : forall s d0 t tr ops t',
+  parse_document s = POk d0 -> tbl_despan s (doc_root d0) = Some t -> raw_despan s (doc_trailing d0) = Some tr ->
+  apply_seq ops t = Some t' -> history_slot_side ops t = true -> replay_unordered_ok t' = true ->
+  exists d, parse_document (display_document t' tr) = POk d
+            /\ same_data (data_of (EditSpec.abs (doc_root d))) (text_data (EditSpec.abs t'))
+            /\ same_data (data_of (EditSpec.abs (doc_root d))) (text_data (spec_apply_all ops (EditSpec.abs t))).
+Proof.
+  intros s d0 t tr ops t' Hp Er Et H Hs Hc. destruct (parse_WF s d0 t tr Hp Er Et) as [Hsl Hr].
+  unfold replay_unordered_ok in Hc. destruct (spec_run (replay_stmts t')) as [T| |] eqn:Erun; try discriminate.
+  apply same_data_b_sound in Hc.
+  destruct (WF_print_parse_replay t' tr T (history_slots ops t t' Hsl H Hs) Hr Erun) as (d & Hp' & Ha).
+  exists d. split; [exact Hp'|]. rewrite <- data_of_parsed, Ha. split; [exact Hc|].
+  rewrite <- (history_content_all ops t t' H). exact Hc.
+Qed.
